@@ -32,7 +32,7 @@ ASSUMPTIONS = [
     "Junos-like vendors (juniper, ribbon, nokia): flattened set/delete statements are segmented into rows by the rulebook (block rows have a fixed word count, no catch-alls, no %rewrite, no negated-form rules there); `set` creates missing blocks, `delete` inside a missing block is a no-op",
     "the RouterOS formatter is not simulated here",
 ]
-FLOORS = {"quick": {"patches_executed": 3000, "commands_executed": 5000, "removals_executed": 500, "second_diffs_empty": 3000, "flat_patches_executed": 800, "flat_commands_executed": 2000, "overlapping_rule_cases": 50, "undo_redo_block_cases": 50, "model_chain_patches_executed": 45, "ignore_changes_block_cases": 50, "ordered_rewrite_body_cases": 25, "rulebooks_with_an_ignore_case_rule_beside_case_sensitive_ones": 150, "rulebooks_with_global_rules_on_two_levels": 60, "ordered_rules_that_also_name_a_logic": 100},
+FLOORS = {"quick": {"patches_executed": 3000, "commands_executed": 5000, "removals_executed": 500, "second_diffs_empty": 3000, "flat_patches_executed": 800, "flat_commands_executed": 2000, "overlapping_rule_cases": 50, "undo_redo_block_cases": 50, "model_chain_patches_executed": 45, "ignore_changes_block_cases": 50, "ordered_rewrite_body_cases": 25, "rulebooks_with_an_ignore_case_rule_beside_case_sensitive_ones": 150, "rulebooks_with_global_rules_on_two_levels": 60, "ordered_rules_that_also_name_a_logic": 100, "rulebooks_with_two_block_kinds_sharing_child_rule_texts": 250},
           "thorough": {"patches_executed": 100000, "commands_executed": 200000, "removals_executed": 20000, "second_diffs_empty": 100000, "flat_patches_executed": 30000, "flat_commands_executed": 80000, "overlapping_rule_cases": 2000, "undo_redo_block_cases": 2000, "model_chain_patches_executed": 300, "ignore_changes_block_cases": 2000, "ordered_rewrite_body_cases": 1000}}
 BLOCK_VENDORS = ["huawei", "h3c", "optixtrans", "cisco", "nexus", "iosxr", "arista", "aruba", "b4com", "pc"]
 FLAT_VENDORS = {"juniper": {"set"}, "ribbon": {"set"}, "nokia": {"/configure"}}
@@ -264,6 +264,14 @@ def run_case(case, acc):
         rules = G.gen_rulebook(rng, depth=3, prefix=prefix, allow=FLAT_ALLOW + extra)
     else:
         rules = G.gen_rulebook(rng, depth=3, prefix=prefix, allow=G.DEFAULT_ALLOW + extra)
+    if case.get("twins") and vname not in FLAT_VENDORS:
+        # two kinds of block whose child rules are spelled alike (`tf *`) and differ one level further down only; the same `tf kN` line
+        # stands under blocks of both kinds
+        trng = random.Random(case["seed"] ^ 0x7215)
+        leaf_a, leaf_b = trng.sample(["tg *", "th *", "ti * *", "tj ~"], 2)
+        rules[0:0] = [RB.Rule("ta *", children=[RB.Rule("tf *", children=[RB.Rule(leaf_a)])]),
+                      RB.Rule("tb *", children=[RB.Rule("tf *", children=[RB.Rule(leaf_b)] + ([RB.Rule(leaf_a, logic="common.undo_redo")] if trng.random() < 0.3 else []))])]
+        acc.count("rulebooks_with_two_block_kinds_sharing_child_rule_texts")
     gn_host = None
     if case.get("gnest") and vname not in FLAT_VENDORS:
         # %global rules on two nesting levels: an outer `gd ~ %global` at the top and, inside a block rule, an inner `gs * %global` of its own;
@@ -569,6 +577,8 @@ def run_shard(spec, acc):
             case["gnest"] = True
         if j % 8 == 6 or j % 8 == 2:
             case["ordlogic"] = True
+        if j % 8 in (3, 4):
+            case["twins"] = True
         run_case(case, acc)
     flat = sorted(FLAT_VENDORS)
     for j in range((total // 3) // n):
